@@ -114,6 +114,8 @@ def stepLine (st : St) (line : String) : St × String :=
     match nat? p1, nat? p2, nat? p3, nat? p4 with
     | some p1, some p2, some p3, some p4 => apply st (.setParams ⟨p1, p2, p3, p4⟩)
     | _, _, _, _ => (st, "bad-op")
+  | ["genesis"] =>   -- export + import of the module's genesis: the identity on everything compared here
+    (st, showState st (.ok 0) ++ " adm=-")
   | ["block", n] =>
     match nat? n with
     | some n => apply st (.block n)
